@@ -60,7 +60,12 @@ if in_worktree:
     head_repo = sh("git -C /repo rev-parse HEAD").stdout.strip()
     head_wt = sh("git rev-parse HEAD", cwd=wt).stdout.strip()
     if head_repo != head_wt:
-        print("worktree is not at /repo's HEAD:", head_wt[:8], "vs", head_repo[:8]); sys.exit(1)
+        # /repo moved on (a fix: commit) since the worktree was made: carry the change over to the new HEAD
+        ok_move = (sh(f"git apply -R {patch}", cwd=wt).returncode == 0 and sh(f"git checkout -q --detach {head_repo}", cwd=wt).returncode == 0
+                   and sh(f"git apply {patch}", cwd=wt).returncode == 0)
+        if not ok_move:
+            print("worktree is not at /repo's HEAD and the change could not be carried over:", head_wt[:8], "vs", head_repo[:8]); sys.exit(1)
+        print("worktree moved to /repo's HEAD", head_repo[:8])
     cenv["VERIF_REPO"] = wt
     meta["evaluated_in"] = "worktree (VERIF_REPO)"
 else:
